@@ -58,3 +58,13 @@ var metaTable = map[string]propMeta{
 			return strings.HasPrefix(fp, "createperm/") || strings.HasPrefix(fp, "chanbind/") || strings.HasPrefix(fp, "probe-expiry/") || strings.Contains(fp, "perm-") || strings.Contains(fp, "chan-")
 		}},
 }
+
+func init() {
+	metaTable["C05"] = propMeta{Level: "exploration", Assumptions: commonAssumptions,
+		Rule: "one authorised topology per case (client over UDP or a randomly segmented stream, inbound MTU in {default,512,1200,9000,70000}, one channel-bound peer, one permission-only peer, one other port of the bound IP); " +
+			"for each payload length four datagrams (Send, ChannelData, peer->relay via channel, peer->relay via indication) with contents from 6 classes (random, zeros, 0xFF, STUN-like, magic-cookie-prefixed, ChannelData-like) are submitted and the multiset of emissions is compared byte-for-byte with the submissions, attribution included; " +
+			"thorough enumerates every length 0..1700 for each (transport, MTU) pair, quick samples boundary lengths; a fingerprint is (transport, length, content class); non-trivial = all of them (each carries four MUST/MAY-whole verdicts)",
+		NonTrivial: func(fp string) bool { return strings.HasPrefix(fp, "len/") },
+		Exhaustive: func(tier string, ev map[string]int) bool { return tier == "thorough" && ev["sweep-length-covered"] >= 1701*10 },
+	}
+}
